@@ -36,6 +36,7 @@ static std::vector<Op> buildAlphabet(const std::string& name, Limits& L, const s
         for (auto d : {"pt_missing", "pt_extra", "pt_renamed", "pt_dup", "ch_missing", "ch_extra", "pt_none"}) A.push_back(opFrame(d, "app", 0, L));
         A.push_back(opFrame("pt_missing", "0", 0, L)); A.push_back(opFrame("ch_extra", "n+1", 0, L));
         A.push_back(opFrame("addpoints", "0", 1, L)); A.push_back(opFrame("addanalogs", "0", 1, L));
+        A.push_back(opSubmitStored(0, "n", L)); A.push_back(opSubmitStored(0, "app", L));   // a stored frame handed back to the object
         for (auto w : {"both", "pt", "an"}) A.push_back(opFrameFree(w, 0, L));
         A.push_back(opFrameEmpty(L));
         for (auto d : {"ok", "ok2", "fewer", "more", "none", "nocol", "dup", "dup2", "ragged"}) A.push_back(opColPoint(d, 0, L));
@@ -146,7 +147,7 @@ int main(int argc, char** argv) {
         std::vector<std::pair<std::string, std::string>> roots;
         if (alphabet == "frames") roots = {{"events", "events=2;first=5"}, {"noanalog", "agroup=empty;chans=0;points=1"}, {"first3", "first=3;chans=0"}};   // first frame number 3: header window 2..3 overlaps the indices count, count+1
         if (alphabet == "mut") roots = {{"events", "events=2;first=5"}, {"sparse", "ids=sparse;extra=all;order=paramsFirst"}, {"zeros", "zeros=7;prologue=0000;frames=1"}, {"noanalog", "agroup=empty;chans=0;points=1"}};
-        if (alphabet == "build") roots = {{"events", "events=18;first=705"}, {"extra", "extra=all;descs=d127;locks=yes"}, {"str1d", "extra=str1d;ids=swapped"}, {"labels", "labels=more;alabels=fewer;points=3"}, {"noanalog", "agroup=empty;chans=0"}};
+        if (alphabet == "build") roots = {{"events", "events=18;first=705"}, {"extra", "extra=all;descs=d127;locks=yes"}, {"str1d", "extra=str1d;ids=swapped"}, {"labels", "labels=more;alabels=fewer;points=3"}, {"noanalog", "agroup=empty;chans=0"}, {"block3", "pblock=3;zeros=1"}};
         if (alphabet == "params") roots = {{"described", "extra=all;locks=yes"}, {"sparse", "ids=sparse"}};
         if (alphabet == "lookup") roots = {{"labels", "labels=fewer;alabels=more;points=3"}, {"events", "events=2"}};
         std::string rdir = scratch + "/roots"; mkdir(rdir.c_str(), 0755);
